@@ -72,6 +72,11 @@ def run_witness(w):
             return {'violates': False, 'finished': True, 'required': w.get('required')}
         except subprocess.TimeoutExpired as e:
             out = (e.stdout.decode() if isinstance(e.stdout, bytes) else (e.stdout or ''))
+            try:   # timing guard: the session has to hang a second time, with a longer watchdog
+                subprocess.run([replaytool.REPLAY_BIN], input='\n'.join(w['lines']) + '\n', capture_output=True, text=True, timeout=30)
+                return {'violates': False, 'finished': True, 'note': 'first run exceeded the 10 s watchdog, second run finished', 'required': w.get('required')}
+            except subprocess.TimeoutExpired:
+                pass
             return {'violates': True, 'finished': False, 'output_before_hang': [l for l in out.split('\n') if l][-4:], 'required': w.get('required')}
     if kind == 'clock':
         import subprocess
@@ -87,6 +92,10 @@ def run_witness(w):
         r = subprocess.run([replaytool.REPLAY_BIN, 'conc'], input='\n'.join(w['lines']) + '\n', capture_output=True, text=True, timeout=120)
         out = [l for l in r.stdout.split('\n') if l]
         bad = any(l.strip() == 'linearizable false' for l in out) or any('BLOCKED' in l for l in out)
+        if bad:   # timing guard: only a schedule that fails twice counts
+            r = subprocess.run([replaytool.REPLAY_BIN, 'conc'], input='\n'.join(w['lines']) + '\n', capture_output=True, text=True, timeout=120)
+            out2 = [l for l in r.stdout.split('\n') if l]
+            bad = any(l.strip() == 'linearizable false' for l in out2) or any('BLOCKED' in l for l in out2)
         return {'output': out, 'violates': bad, 'required': w.get('required', 'the concurrent outcome equals one of the two sequential orders (the real code is its own oracle)')}
     if kind == 'steps-lin':
         import re
@@ -103,12 +112,9 @@ def run_witness(w):
             bad = 'completes true' not in out2
         return {'output': out, 'violates': bad, 'required': w.get('required')}
     if kind == 'sock':
-        import subprocess
-        r = subprocess.run([replaytool.REPLAY_BIN, 'sock'], input='\n'.join(w['lines']) + '\n', capture_output=True, text=True, timeout=120)
-        out = [l for l in r.stdout.split('\n') if l]
-        got = ''.join(l[5:] for l in out if l.startswith('recv '))
+        got, eof = _sock_stable(w['lines'], w['expect_recv'])
         bad = got != w['expect_recv']
-        return {'output': out, 'violates': bad, 'required': 'bytes received == ' + w['expect_recv']}
+        return {'output': ['recv ' + got] + (['eof'] if eof else []), 'violates': bad, 'required': 'bytes received == ' + w['expect_recv']}
     raise ValueError('unknown witness kind ' + kind)
 
 # ------------------------------------------------------------------------------------------------
@@ -263,6 +269,23 @@ def _sock(lines):
     out = [l for l in r.stdout.split('\n') if l]
     return ''.join(l[5:] for l in out if l.startswith('recv ')), any(l == 'eof' for l in out)
 
+def _slow(lines, k):
+    out = []
+    for l in lines:
+        w = l.split()
+        if w and w[0] in ('sleep', 'recv'): out.append('%s %d' % (w[0], int(w[1]) * k))
+        else: out.append(l)
+    return out
+
+def _sock_stable(lines, want):
+    """timing guard: a delivery whose answer differs from `want` is repeated twice with 3x and 6x longer pauses; only an
+    answer that differs every time is reported (returns the last answer)"""
+    got, eof = _sock(lines)
+    for k in (3, 6):
+        if got == want: break
+        got, eof = _sock(_slow(lines, k))
+    return got, eof
+
 def _session_resp(frames, limit):
     ev = replaytool.run_session(['limit %d' % limit] + ['feed ' + f.hex() for f in frames])
     return ''.join(e[5:] for e in ev if e.startswith('resp '))
@@ -306,7 +329,7 @@ def gen_sock(pid, f):
             for ch in chunks:
                 lines += ['send ' + ch.hex(), 'sleep 60']
             lines += ['recv 400']
-            got, eof = _sock(lines)
+            got, eof = _sock_stable(lines, want)
             if got != want:
                 return {'kind': 'sock', 'lines': lines, 'expect_recv': want, 'what': 'pipeline "%s" delivered as "%s": the server answers %s..., the request path requires %s...' % (name, dn, got[:48], want[:48]),
                         'required': 'the response bytes do not depend on segmentation and equal those of decode -> handler -> encode'}
@@ -334,7 +357,7 @@ def gen_sock_faults(pid, f):
     def completed(c): return [fr for i, fr in enumerate(frames) if bounds[i + 1] <= c]
     def check(lines, want, what):
         gen_sock_faults.last_count += 1
-        got, eof = _sock(lines)
+        got, eof = _sock_stable(lines, want)
         if got != want:
             return {'kind': 'sock', 'lines': lines, 'expect_recv': want, 'what': what + ': the observing connection receives %s..., required %s...' % (got[:64], want[:64]),
                     'required': 'the observer sees exactly the store contents that the completely sent requests imply'}
